@@ -58,6 +58,20 @@ func (k *Checker) onReady(n *Node, rd *raft.Ready) {
 		}
 	}
 
+	// ---- C07 hs.exposed: what a node exposes for persistence is its hard
+	// state: right after a Ready has been taken, the last exposed hard state
+	// (this Ready's, or an earlier one's, or the one the node started with)
+	// equals the node's (term, vote, commit).
+	if hs != nil && !raft.IsEmptyHardState(hs) {
+		x.exTerm, x.exVote, x.exCommit = hs.GetTerm(), hs.GetVote(), hs.GetCommit()
+	}
+	k.count("hs.exposed")
+	if st.Term != x.exTerm || st.Vote != x.exVote || st.Committed != x.exCommit {
+		k.report("C07", "hs.exposed", n, fmt.Sprintf("after this Ready the node is at (term=%d vote=%d commit=%d) but the hard state it has exposed for persistence last is (term=%d vote=%d commit=%d)",
+			st.Term, st.Vote, st.Committed, x.exTerm, x.exVote, x.exCommit), "")
+		return
+	}
+
 	// ---- C18: remember exactly what was handed out for writing
 	if len(ents) > 0 {
 		x.handedOut = append(x.handedOut, handedOut{first: ents[0].GetIndex(), ents: append([]*pb.Entry(nil), ents...), live: ents})
